@@ -88,13 +88,21 @@ def shrink_scenario(lines, fails):
 
 def run(res, prop, note, gen, checker, n_quick, n_thorough, rule, assumptions, validate=True, post=None,
         max_validate_events=2500, sim_timeout=300):
-    rng = Rng(res.seed).fork(prop.lower())
     proved = vlib.prove(res, prop, extra_targets=RUN_TARGETS)
     if not proved:
         vlib.ensure_model(RUN_TARGETS)
     ok, out = vlib.build_harness()
     if not ok:
         raise Broken("harness build failed: " + out[-1500:])
+    explore(res, prop, gen, checker, n_quick, n_thorough, rule, assumptions, validate, post, max_validate_events, sim_timeout)
+    return res.finish("proof", note)
+
+
+def explore(res, prop, gen, checker, n_quick, n_thorough, rule, assumptions, validate=True, post=None,
+            max_validate_events=2500, sim_timeout=300, part=None):
+    """Node runs for `prop`: simulate, check, shrink, validate traces against the model. With `part` (a name) the results are
+    recorded as an additional part of a check that has other parts (coverage under that key; counters added, not replaced)."""
+    rng = Rng(res.seed).fork(prop.lower() + (part or ""))
     consts = comp.read_consts()
     n = n_quick if res.tier == "quick" else n_thorough
     corpus = load_corpus(prop)
@@ -104,8 +112,12 @@ def run(res, prop, note, gen, checker, n_quick, n_thorough, rule, assumptions, v
     logs = simlib.run_sims([sc.text() for sc, _ in scs], timeout=sim_timeout)
     traces = [simlib.Trace(l, sc.node) if sc.node else None for l, (sc, _) in zip(logs, scs)]
     nev = sum(len(t.events) for t in traces if t)
-    res.evaluations = nev
-    res.traces_validated = sum(1 for t in traces if t)
+    if part:
+        res.evaluations = (res.evaluations or 0) + nev
+        res.traces_validated = (getattr(res, "traces_validated", 0) or 0) + sum(1 for t in traces if t)
+    else:
+        res.evaluations = nev
+        res.traces_validated = sum(1 for t in traces if t)
     for sc, _ in scs:
         res.distinct.add(sc.text())
     dist = {"scenarios": len(scs), "corpus": len(corpus), "handler_events": nev,
@@ -117,12 +129,17 @@ def run(res, prop, note, gen, checker, n_quick, n_thorough, rule, assumptions, v
                      "SENDFAIL", "DROP", "LOOKUP_START"):
                 kinds[k] = kinds.get(k, 0) + 1
     dist.update(kinds)
-    res.samples = [{"scenario_head": scs[len(corpus)][0].lines[:8],
-                    "log_head": ["%d %s %s" % (t, k, b[:120]) for t, k, b in logs[len(corpus)][:10]]}]
-    res.coverage.update({"rule": rule, "input_distribution": dist})
-    res.assumptions = assumptions + [
+    extra_assumptions = assumptions + [
         "A-ORDER: the hook's log order is the order in which the handler processed events",
         "A-TIME: one clock reading per handler call (exact under the paused tokio clock)"]
+    if part:
+        res.coverage[part] = {"rule": rule, "input_distribution": dist}
+        res.assumptions = list(res.assumptions or []) + [a for a in extra_assumptions if a not in (res.assumptions or [])]
+    else:
+        res.samples = [{"scenario_head": scs[len(corpus)][0].lines[:8],
+                        "log_head": ["%d %s %s" % (t, k, b[:120]) for t, k, b in logs[len(corpus)][:10]]}]
+        res.coverage.update({"rule": rule, "input_distribution": dist})
+        res.assumptions = extra_assumptions
 
     # (2) the property's own checker on what the real node did
     for i, ((sc, meta), log, tr) in enumerate(zip(scs, logs, traces)):
@@ -156,7 +173,7 @@ def run(res, prop, note, gen, checker, n_quick, n_thorough, rule, assumptions, v
             d = vlib.parse_N_list(b[0])
             if d:
                 bad.append((t, d))
-        res.coverage["trace_validation"] = {"traces": len(vt), "traces_with_differences": len(bad)}
+        res.coverage["trace_validation" + ("_" + part if part else "")] = {"traces": len(vt), "traces_with_differences": len(bad)}
         if bad:
             t, d = bad[0]
             e = t.events[d[0]]
@@ -164,7 +181,6 @@ def run(res, prop, note, gen, checker, n_quick, n_thorough, rule, assumptions, v
                                     {"first_differing_event_index": d[0], "event_kind": e["kind"], "event_time": e["t"],
                                      "observed_outputs": [str(o)[:300] for o in e["out"]][:6],
                                      "scenario": [sc for sc, _ in scs if sc.node is t.node][0].lines[:400]}))
-    return res.finish("proof", note)
 
 
 def load_corpus(prop):
